@@ -298,6 +298,29 @@ func (b *atBuilder) attr(d *atJDef) (acmelib.Attribute, error) {
 }
 
 func (b *atBuilder) assign(ent acmelib.AttributableEntity, asgs []atJAsg) error {
+	// observe, then edit: before an entity gets the assignments of the model it carries two others,
+	// is asked for its listing once, and loses them again — all at once where the model gives it
+	// nothing, one by one otherwise.  What is exported afterwards is a function of the CURRENT
+	// assignments, not of a listing somebody asked for earlier.
+	type lister interface {
+		AttributeAssignments() []*acmelib.AttributeAssignment
+		RemoveAllAttributeAssignments()
+		RemoveAttributeAssignment(acmelib.EntityID) error
+	}
+	if l, ok := ent.(lister); ok {
+		g1 := acmelib.NewStringAttribute("zz_ghost_s", "g")
+		g2, err := acmelib.NewIntegerAttribute("zz_ghost_i", 1, 0, 5)
+		if err == nil && ent.AssignAttribute(g1, "gone") == nil && ent.AssignAttribute(g2, 3) == nil {
+			_ = l.AttributeAssignments()
+			if len(asgs) == 0 {
+				l.RemoveAllAttributeAssignments()
+			} else {
+				_ = l.RemoveAttributeAssignment(g1.EntityID())
+				_ = l.AttributeAssignments()
+				_ = l.RemoveAttributeAssignment(g2.EntityID())
+			}
+		}
+	}
 	for i := range asgs {
 		a, err := b.attr(&asgs[i].D)
 		if err != nil {
